@@ -393,6 +393,8 @@ class Engine:
             if m:
                 return Closure(self.find_closure(m.group(1)), Agg("closure", []))
             return self.models.constant(name)
+        if re.fullmatch(r"[A-Za-z_][\w]*(::[A-Za-z_<][\w<>' ,&\[\]]*)+", s) and not s.startswith(("copy", "move")):
+            return Opaque("fn-item", s)          # a function item used as a value (e.g. `.map(SanType::try_from_general)`)
         raise Unsupported("operand: " + s)
 
     # ---- statements
